@@ -21,6 +21,7 @@ import (
 	"github.com/tetratelabs/wazero/api"
 	"github.com/tetratelabs/wazero/experimental/sock"
 	"github.com/tetratelabs/wazero/verifharness/common"
+	"github.com/tetratelabs/wazero/verifharness/wb"
 )
 
 type method struct {
@@ -39,6 +40,7 @@ type method struct {
 	B      bool     `json:"b"`
 	Host   string   `json:"host"`
 	Port   int      `json:"port"`
+	Sock   bool     `json:"sock"`
 }
 
 type step struct {
@@ -381,12 +383,15 @@ func (w *world) apply(rt wazero.Runtime, compiled wazero.CompiledModule, s step)
 		// instantiate with the configuration; a socket configuration travels in the context
 		ctx, cancel := context.WithTimeout(context.Background(), 10*time.Second)
 		defer cancel()
-		ctx = sock.WithConfig(ctx, sock.NewConfig().WithTCPListener("127.0.0.1", 0))
+		if m.Sock {
+			ctx = sock.WithConfig(ctx, sock.NewConfig().WithTCPListener("127.0.0.1", 0))
+			detail = "Use+sock"
+		}
 		mod, err := rt.InstantiateModule(ctx, compiled, recv.(wazero.ModuleConfig))
 		if err == nil {
 			_ = mod.Close(ctx)
 		}
-		return "", nil, "Use"
+		return "", nil, detail
 	case "WithDirMount":
 		return "fs", recv.(wazero.FSConfig).WithDirMount(w.tok.dirs[m.Dir], m.Guest), detail
 	case "WithReadOnlyDirMount":
@@ -533,7 +538,10 @@ func Main(args []string) {
 	ctx := context.Background()
 	rt := wazero.NewRuntimeWithConfig(ctx, wazero.NewRuntimeConfigInterpreter())
 	defer rt.Close(ctx)
-	compiled, err := rt.CompileModule(ctx, []byte{0, 'a', 's', 'm', 1, 0, 0, 0})
+	// the instantiated binary carries a module name in its name section
+	named := wb.New()
+	named.Name("binname")
+	compiled, err := rt.CompileModule(ctx, named.Build())
 	if err != nil {
 		common.Fatalf("compile: %v", err)
 	}
